@@ -1,7 +1,7 @@
 (* C07 - Real-toolchain builds are incremental and survive header changes.
    Only statements; proofs live in theories/. *)
 From Coq Require Import String List.
-From BFG Require Import Base.Chars Misc.Depfix Misc.DepfixProofs Make.MakeSem Make.MakeSemProofs.
+From BFG Require Import Base.Chars Misc.Depfix Misc.DepfixProofs Make.MakeSem Make.MakeSemProofs Misc.DepHistory Misc.DepHistoryProofs.
 Local Open Scope N_scope.
 
 (* For every depfile text a gcc-style writer produces (target, dependencies with gcc's escaping of blank, hash and
@@ -83,6 +83,47 @@ Example C07_makesem_ex :
   b_log (build rs (del (b_fs s1) 1) (b_clk s1)) = [10; 20] /\ b_fail (build rs (del (b_fs s1) 1) (b_clk s1)) = None /\
   b_fail (build (tl rs) (del (b_fs s1) 1) (b_clk s1)) = Some 1.
 Proof. vm_compute. repeat split. Qed.
+
+(* ---- the project level (Misc/DepHistory.v): objects, their sources and the dependencies their depfiles record;
+   rules_of true objs is what Make reads from Makefile + fixed depfiles (C07_depfix_targets) ---- *)
+
+(* However many recorded headers have been deleted: over the fixed depfiles Make never stops with
+   No rule to make target  (a source must exist or be recorded itself, which it is after the first compile). *)
+Theorem C07_no_wedge : forall objs f clk,
+  objs_ok objs ->
+  (forall o, In o objs -> f (o_src o) <> None \/ In (o_src o) (o_listed o)) ->
+  b_fail (build (rules_of true objs) f clk) = None.
+Proof. exact no_wedge. Qed.
+Print Assumptions C07_no_wedge.
+
+(* ... and the depfixer is what makes this true: without the empty rules a deleted recorded header stops Make *)
+Example C07_no_wedge_needs_depfixer :
+  let objs := [mkObj 10 2 [2; 1]] in
+  let f := fs_of [(2, 6); (10, 50)] in          (* header 1 has been deleted, the source no longer includes it *)
+  b_fail (build (rules_of true objs) f 100) = None /\ b_log (build (rules_of true objs) f 100) = [10] /\
+  b_fail (build (rules_of false objs) f 100) = Some 1.
+Proof. vm_compute. repeat split. Qed.
+
+(* The edit-history invariant, with the preprocessor's include scanner as an oracle (a variable of the theorem):
+   Inv = every depfile records exactly what a compile of its source reads now, and every object is at least as new
+   as everything recorded.  After ANY edit satisfying edit_ok (modify / create / delete / rename = delete + create of
+   sources and headers; scanner locality; the project still compiles) the next build does not fail and recompiles
+   exactly the objects one of whose recorded dependencies was touched ... *)
+Theorem C07_rebuild : forall (content : Type) (includes : content -> file -> list file)
+  (w : world content) c' f' touched,
+  Inv content includes w -> edit_ok content includes w c' f' touched ->
+  b_fail (after_build content w c' f') = None /\
+  b_log (after_build content w c' f') = map o_file (filter (touched_obj touched) (w_objs w)).
+Proof. exact rebuild_exact. Qed.
+Print Assumptions C07_rebuild.
+
+(* ... and re-establishes the invariant, so this holds along every edit history. *)
+Theorem C07_inv : forall (content : Type) (includes : content -> file -> list file)
+  (w : world content) c' f' touched,
+  Inv content includes w -> edit_ok content includes w c' f' touched ->
+  Inv content includes (next_world content includes w c' f').
+Proof. exact inv_preserved. Qed.
+Print Assumptions C07_inv.
 
 (* names outside the guard really go wrong: the depfixer copies percent and equals unescaped, and Make does not
    read the resulting line as an explicit rule for that name (see findings C07-depfix-percent / -equals) *)
